@@ -187,6 +187,10 @@ class AsyncSimpleClient:
                 if not self.connected_event.is_set():
                     raise TimeoutError()
             if not self.connected:
+                if self.input_buffer:
+                    # events that arrived before the connection ended are
+                    # returned first
+                    break
                 raise DisconnectedError()
             try:
                 await asyncio.wait_for(self.input_event.wait(),
